@@ -803,7 +803,7 @@ Section with_idx.
       destruct (handle _ m) as [x| |] eqn:H; try discriminate. intros [= <-].
       eapply ledger_handle; [apply kinv_clear; exact A| |exact Hv|exact H].
       eapply (ledger_inv_frame s); [..|exact D]; reflexivity.
-    - intros [= <-]. apply (fold_left_inv ledger_inv).
+    - destruct (forallb pchange_valid _); [|discriminate]. intros [= <-]. apply (fold_left_inv ledger_inv).
       + intros x c Hx. pose proof (apply_pchange_keeps x c). eapply ledger_inv_keeps; eauto.
       + eapply (ledger_inv_frame s); [..|exact D]; reflexivity.
     - destruct (end_block _) as [se| |] eqn:H; try discriminate. intros [= <-].
